@@ -299,7 +299,17 @@ def record_final(box, failure):
   runs (owned by the C09 check, which runs this sweep too)"""
   from vf import build
   rec = box.get('rec')
-  if failure is not None or rec is None:
+  if failure is not None:
+    return []
+  ev = box.get('events', [])
+  names = [e[0] for e in ev]
+  if 'exec-raised' in names:
+    # an abort from another thread (or a SIGINT) never makes execute() raise anything but KeyboardInterrupt
+    return ['execute() of an aborted run raised %s: no complete record, %d callback(s) called'
+            % (ev[names.index('exec-raised')][1], box.get('ncb', 0))]
+  if 'exec-ret' in names and ev[names.index('exec-ret')][1] != 'KeyboardInterrupt' and box.get('ncb') != 1:
+    return ['execute() of an aborted run returned but the output callback was called %s time(s)' % box.get('ncb')]
+  if rec is None:
     return []
   bad = []
   if rec.outcome is None or not rec.end_time_millis or not rec.start_time_millis or \
